@@ -474,8 +474,15 @@ def _first_arg_is_inmemory(f, fornode):
     name = it.args[0].id
     defs = [n for n in walk_own(f.node) if isinstance(n, ast.Assign) and
             any(isinstance(t, ast.Name) and t.id == name for t in n.targets)]
+    def octets(e):
+        if norm(e).endswith('.asOctets()'):
+            return True
+        if isinstance(e, ast.Name):      # a local bound only to <value>.asOctets()
+            ds = [n for n in walk_own(f.node) if isinstance(n, ast.Assign) and any(isinstance(t, ast.Name) and t.id == e.id for t in n.targets)]
+            return bool(ds) and all(norm(d.value).endswith('.asOctets()') for d in ds)
+        return False
     return bool(defs) and all(isinstance(d.value, ast.Call) and call_name(d.value) == 'asSeekableStream' and
-                              d.value.args and norm(d.value.args[0]).endswith('.asOctets()') for d in defs)
+                              d.value.args and octets(d.value.args[0]) for d in defs)
 
 
 def _is_eoo_identity(test, var):
